@@ -190,7 +190,7 @@ func runC06E2E(run *Run, seed int64, sc c06e2e) (out []*c01Result) {
 	fail := func(key, f string, a ...any) {
 		out = append(out, &c01Result{"C06/e2e/" + key, fmt.Sprintf(f, a...)})
 	}
-	rig, err := NewRig(RigOpts{Seed: seed, Spec: NodeSpec{Name: "V", IP: "10.9.9.9", Mutate: func(cf *memberlist.Config) {
+	rig, err := NewRig(RigOpts{Seed: seed, Spec: NodeSpec{Name: "V", IP: "10.9.9.9", WithAlive: sc.Prehistory == "vetoed-strangers", Mutate: func(cf *memberlist.Config) {
 		cf.ProbeInterval = time.Second
 		cf.ProbeTimeout = 500 * time.Millisecond
 		cf.PushPullInterval = 0
@@ -206,6 +206,17 @@ func runC06E2E(run *Run, seed int64, sc c06e2e) (out []*c01Result) {
 		return
 	}
 	defer rig.Close()
+	if sc.Prehistory == "vetoed-strangers" {
+		// the application admits only its own cluster's names
+		rig.V.mu.Lock()
+		rig.V.AliveVeto = func(n *memberlist.Node) error {
+			if strings.HasPrefix(n.Name, "dc2-") {
+				return fmt.Errorf("not one of ours")
+			}
+			return nil
+		}
+		rig.V.mu.Unlock()
+	}
 	var peers []*FakePeer
 	for i := 0; i < sc.Peers; i++ {
 		p := rig.AddPeer(fmt.Sprintf("p%d", i), fmt.Sprintf("10.9.1.%d", i+1), 7946)
@@ -246,6 +257,13 @@ func runC06E2E(run *Run, seed int64, sc c06e2e) (out []*c01Result) {
 	case "addr-conflict":
 		peers[0].Send(Enc(TAlive, &WAlive{Incarnation: 5, Node: "p0", Addr: []byte{10, 9, 77, 77}, Port: 7946, Vsn: DefaultVsn()}))
 		Settle(time.Millisecond)
+	case "vetoed-strangers":
+		// announcements of names the application's alive delegate refuses keep arriving (another cluster's gossip
+		// leaking in): they are never members and must not count as cluster size
+		for i := 0; i < 40; i++ {
+			peers[0].Send(Enc(TAlive, &WAlive{Incarnation: uint32(1 + i%3), Node: fmt.Sprintf("dc2-%d", i), Addr: []byte{10, 77, 0, byte(i + 1)}, Port: 7946, Vsn: DefaultVsn()}))
+		}
+		Settle(time.Millisecond)
 	}
 	run.Cell("e2e-prehistory", sc.Prehistory)
 	if sc.AccuseSelfFirst {
@@ -272,7 +290,14 @@ func runC06E2E(run *Run, seed int64, sc c06e2e) (out []*c01Result) {
 		if d.NumNodes != len(d.Records) {
 			fail("size-estimate", "the node's cluster-size estimate is %d but its table holds %d records (prehistory %q)", d.NumNodes, len(d.Records), sc.Prehistory)
 		}
-		return len(d.Records), d.NumNodes
+		// records of names that were never accepted (placeholders) are not members
+		n = 0
+		for i := range d.Records {
+			if !isPlaceholder(&d.Records[i]) {
+				n++
+			}
+		}
+		return n, d.NumNodes
 	}
 	prevN, _ := sizes()
 	curN := prevN
@@ -617,7 +642,7 @@ func TestC06(t *testing.T) {
 				sc.ForeignDeadAt = time.Duration(300+rng.Intn(3000))*time.Millisecond + 311*time.Microsecond
 			}
 		}
-		sc.Prehistory = []string{"", "rejoin-newaddr", "come-and-go", "meta-update", "addr-conflict"}[rng.Intn(5)]
+		sc.Prehistory = []string{"", "rejoin-newaddr", "come-and-go", "meta-update", "addr-conflict", "vetoed-strangers"}[rng.Intn(6)]
 		if i%5 == 3 {
 			sc.Mult = []int{1, 2}[(i/5)%2]
 		}
@@ -682,7 +707,7 @@ func TestC06(t *testing.T) {
 	if !run.Replaying() {
 		run.Require("e2e-end|left-and-returned-then-timer|peers=1", "e2e-end|left-and-returned-then-timer|peers=3")
 		run.Require("e2e-end|refuted-at-expiry", "hearsay|entries=3")
-		run.Require("e2e-end|refuted", "e2e-end|resuspected-then-timer", "e2e-end|foreign-dead", "e2e-prehistory|rejoin-newaddr", "e2e-prehistory|come-and-go", "e2e-prehistory|meta-update", "e2e-prehistory|addr-conflict")
+		run.Require("e2e-end|refuted", "e2e-end|resuspected-then-timer", "e2e-end|foreign-dead", "e2e-prehistory|rejoin-newaddr", "e2e-prehistory|come-and-go", "e2e-prehistory|meta-update", "e2e-prehistory|addr-conflict", "e2e-prehistory|vetoed-strangers")
 	}
 	run.Complete()
 	if run.Violations() > 0 {
